@@ -597,8 +597,9 @@ class Lexer(object):
         u'\u1680'
         # en quad .. hair space
         u'\u2000\u2001\u2002\u2003\u2004\u2005\u2006\u2007\u2008\u2009\u200A'
-        # line sep, paragraph sep, narrow nbsp, med math, ideographic space
-        u'\u2028\u2029\u202F\u205F\u3000'
+        # narrow nbsp, med math, ideographic space (line sep and paragraph
+        # sep are line terminators, see t_LINE_TERMINATOR)
+        u'\u202F\u205F\u3000'
         # unicode bom
         u'\uFEFF'
     )
